@@ -23,16 +23,25 @@ def worker():
     from jaxley.connect import connect
     job = json.load(open(sys.argv[1]))
     T, K = job["model"]["T"], job["model"]["K"]
-    base = pickle.dumps(probes.build_net(LAYOUTS[job["layout"]], K))
-    res = {"states": 0, "mismatch": []}
+    # specific capacitances differ from 1 and from each other: a synaptic (point) current must act like the same nA injected
+    CM = [1.0, 2.0, 0.5, 1.0, 4.0, 0.25]
+    base = pickle.dumps(probes.build_net(LAYOUTS[job["layout"]], K, CM[:len(K)]))
+    res = {"states": 0, "routes": {"set": 0, "data_set": 0, "make_trainable": 0}, "mismatch": []}
 
     def view(net, ev):
+        if ev["kind"] == "rows":
+            return net.select(nodes=[int(r) for r in job["model"]["rowsets"][int(ev["k"]) - 1]])
         v = getattr(net, ev["ty"])
         return v if ev["kind"] == "type" else v.edge(int(ev["k"]))
 
-    for st in job["states"]:
+    for si, st in enumerate(job["states"]):
         net = pickle.loads(base)
         nin = 0
+        # C10 on synaptic parameters: the weight edits of a history go through .set, or are all deferred to integrate through
+        # data_set / make_trainable (the tables then keep the initial weight 1)
+        route = ["set", "data_set", "make_trainable"][(si + job.get("salt", 0)) % 3]
+        has_setw = any(h["op"] == "setw" for h in st["hist"])
+        pstate, tvals = None, []
         sig = {"ntypes": len({e["ty"] for e in st["edges"]}), "ops": ",".join(sorted({h["op"] for h in st["hist"]})), "layout": job["layout"]}
         rank_in_type = {}
         cnt = Counter()
@@ -45,7 +54,14 @@ def worker():
                     if h["op"] == "connect":
                         connect(net.select(nodes=[h["pre"]]), net.select(nodes=[h["post"]]), probes.SYN[h["ty"]]())
                     elif h["op"] == "setw":
-                        view(net, h["ev"]).set(h["ev"]["ty"] + "_w", float(h["x"]))
+                        key = h["ev"]["ty"] + "_w"
+                        if route == "set":
+                            view(net, h["ev"]).set(key, float(h["x"]))
+                        elif route == "data_set":
+                            pstate = view(net, h["ev"]).data_set(key, jnp.asarray(float(h["x"])), pstate)
+                        else:
+                            view(net, h["ev"]).make_trainable(key, verbose=False)
+                            tvals.append((key, float(h["x"])))
                     elif h["op"] == "sets":
                         view(net, h["ev"]).set(h["ev"]["ty"] + "_s", float(h["x"]))
                     elif h["op"] == "record":
@@ -62,9 +78,12 @@ def worker():
                              zip(ed["pre_global_comp_index"], ed["post_global_comp_index"], ed["type"])]
                 got_w = [tok(ed[t + "_w"].iloc[i]) for i, t in enumerate(ed["type"])]
                 got_s = [tok(ed[t + "_s"].iloc[i]) for i, t in enumerate(ed["type"])]
-                if got_edges != st["edges"] or got_w != list(st["w"]) or got_s != list(st["s0"]):
+                want_w = list(st["w"]) if route == "set" else [1] * len(st["w"])
+                if has_setw:
+                    res["routes"][route] += 1
+                if got_edges != st["edges"] or got_w != want_w or got_s != list(st["s0"]):
                     res["mismatch"].append({"kind": "edge_table", **sig, "hist": st["hist"], "got": [got_edges, got_w, got_s],
-                                            "want": [st["edges"], st["w"], st["s0"]]})
+                                            "want": [st["edges"], want_w, st["s0"]], "route": route})
                     res["states"] += 1
                     continue
                 # recordings: v of every compartment first (the harness moves them to the front)
@@ -75,6 +94,12 @@ def worker():
                     import pandas as pd
                     net.recordings = pd.concat([net.recordings, recs_user])
                 kw = {} if net.externals else {"t_max": (T - 1) * DT}
+                if pstate is not None:
+                    kw["param_state"] = pstate
+                if tvals:
+                    params = net.get_parameters()
+                    assert len(params) == len(tvals)
+                    kw["params"] = [{k: jnp.full(np.asarray(p[k]).shape, x)} for p, (k, x) in zip(params, tvals)]
                 for vs in job["backends"]:
                     out = np.asarray(jx.integrate(net, delta_t=DT, voltage_solver=vs, **kw))
                     states_ = list(net.recordings["state"])
@@ -82,7 +107,7 @@ def worker():
                     want = [list(r) for r in st["obs"]]
                     nrows = len(net.nodes)
                     if got[:nrows] != want[:nrows]:
-                        res["mismatch"].append({"kind": "voltages", **sig, "voltage_solver": vs, "hist": st["hist"],
+                        res["mismatch"].append({"kind": "voltages", **sig, "voltage_solver": vs, "hist": st["hist"], "route": route,
                                                 "got": got[:nrows], "want": want[:nrows]})
                         break
                     if got[nrows:] != want[nrows:]:
@@ -110,6 +135,9 @@ def main(which):
     runs = [("net_a", {"MaxEdges": 3, "MaxEdits": 1, "SAMPLE": 250}), ("net_b", {"MaxEdges": 2, "MaxEdits": 2, "SAMPLE": 120})]
     if not quick:
         runs = [("net_full", {"MaxEdges": 3, "MaxEdits": 2, "SAMPLE": 1500})]
+    if which == "C10":
+        # synaptic half of C10: only the weight-edit histories matter (set / data_set / make_trainable routes)
+        runs = [("net_b", {"MaxEdges": 2, "MaxEdits": 2, "SAMPLE": 40 if quick else 8})]
     states = trans = 0
     sts = []
     model = None
@@ -135,30 +163,37 @@ def main(which):
             sts.append(json.loads(line[line.index('"{') + 1: line.rindex('}"') + 1].replace('\\"', '"')))
     if len(sts) < 100:
         raise C.MachineryError("only %d observed states sampled" % len(sts))
+    if which == "C10":
+        sts = [s for s in sts if any(h["op"] == "setw" for h in s["hist"])]
+        if len(sts) < 300:
+            raise C.MachineryError("only %d weight-edit histories sampled" % len(sts))
     ops = Counter(h["op"] for s in sts for h in s["hist"])
-    for need in ("connect", "setw", "sets", "record", "clamp", "stim"):
+    for need in (("connect", "setw") if which == "C10" else ("connect", "setw", "sets", "record", "clamp", "stim")):
         if ops[need] == 0:
             raise C.MachineryError("vacuity: no sampled history contains %s" % need)
     backends = ["jaxley.thomas", "jax.sparse"] if quick else ["jaxley.stone", "jaxley.thomas", "jax.sparse"]
-    jobs = [{"model": model, "states": ch, "backends": backends, "layout": sorted(LAYOUTS)[(i + sd) % 2]}
+    jobs = [{"model": model, "states": ch, "backends": backends, "layout": sorted(LAYOUTS)[(i + sd) % 2], "salt": i + sd}
             for i, ch in enumerate(C.chunks(sts, C.NCPU * 2))]
     outs = C.run_workers("net_check", jobs, timeout=3000)
     n = 0
     c09 = {"edge_table", "voltages", "raised"}
     c08 = {"recorded_synaptic_rows", "raised"}
+    routes = Counter()
     for o in outs:
+        routes.update(o.get("routes", {}))
         n += o["states"]
         for m in o["mismatch"]:
-            if m["kind"] not in (c09 if which == "C09" else c08):
+            if m["kind"] not in (c08 if which == "C08" else c09):
                 continue
-            sig = {k: m[k] for k in ("kind", "ntypes", "layout", "global_edge_index_equals_rank_within_type") if k in m}
+            sig = {k: m[k] for k in ("kind", "ntypes", "layout", "route", "global_edge_index_equals_rank_within_type") if k in m}
             if m["kind"] in ("recorded_synaptic_rows", "raised"):
                 sig["clamp_calls"] = min(m.get("clamps", 0), 2)
             chk.violation(sig, m)
     prev = None
     evp = os.path.join(C.EVID, which + ".json")
-    if which == "C08" and os.environ.get("VERIF_MERGE_EVIDENCE") == "1" and os.path.exists(evp):
+    if which in ("C08", "C10") and os.environ.get("VERIF_MERGE_EVIDENCE") == "1" and os.path.exists(evp):
         prev = json.load(open(evp))
+    chk.set("weight_edit_histories_by_route", dict(routes))
     chk.set("states", states + (prev["coverage"].get("states", 0) if prev else 0))
     chk.set("transitions", trans + (prev["coverage"].get("transitions", 0) if prev else 0))
     chk.set("traces_validated_against_impl", n + (prev["coverage"].get("traces_validated_against_impl", 0) if prev else 0))
@@ -174,9 +209,15 @@ def main(which):
                     "on the real network (edge table + integrate vs TLC's integers); non-trivial = both synapse types present")
     for s in sts[:2]:
         chk.sample({"hist": s["hist"], "obs": s["obs"]})
-    if prev:
+    if prev and which == "C08":
         chk.set("time_loop_part", {k: prev["coverage"].get(k) for k in ("integrate_calls_compared", "refusals_confirmed", "manual_stepping_runs")})
         chk.violations += prev.get("violations", 0)
+    if prev and which == "C10":
+        chk.set("module_part", {k: v for k, v in prev["coverage"].items() if k not in ("samples",)})
+        chk.cov["rule"] = prev["coverage"].get("rule", "") + " || synaptic parameters: " + chk.cov["rule"]
+        chk.violations += prev.get("violations", 0)
+        for fid, cnt in (prev["coverage"].get("known_findings_hit") or {}).items():
+            chk.known[fid] = chk.known.get(fid, 0) + cnt
     chk.assume("TLC", "probe synapses P (copies the presynaptic voltage) and Q (counts steps) make the dynamics integer exact",
                "replay is a hash sample of the explored histories (thorough: larger sample, deeper edits)")
     return chk.finish()
